@@ -105,6 +105,8 @@ CELLS = [
     ('triclinic-strong-tilt', None, lambda: am.Box(vects=[[3.0, 0, 0], [2.6, 3.0, 0], [-2.2, 1.9, 3.0]])),
     ('triclinic-rotated', None, lambda: am.Box(vects=chol_from_params(3.7, 4.1, 5.9, 81, 97, 112) @ rodrigues([1, 2, 3], 37.0).T,
                                                origin=[0.3, -1.1, 2.0])),
+    ('triclinic-metre-scale', None, lambda: am.Box(vects=1e-10 * chol_from_params(3.7, 4.1, 5.9, 81, 97, 112))),     # lengths held in metres
+    ('orthorhombic-metre-scale', 'orthorhombic', lambda: am.Box.orthorhombic(3.1e-10, 4.2e-10, 5.3e-10)),
     ('triclinic-seed-slice', None, lambda: am.Box.triclinic(*_SEED_TRI[SEED % 8])),
     # orthogonal / hexagonal cells whose vectors are NOT along the Cartesian axes (a cell is "cubic" by its lengths and
     # angles, not by its orientation): rotated about z, cyclically permuted axes, generic rotation
